@@ -177,6 +177,9 @@ pub fn solve_cubic(c0: f64, c1: f64, c2: f64, c3: f64) -> ArrayVec<f64, 3> {
     let d = 4.0 * d0 * d2 - d1 * d1;
     // de is called "Depressed.x", Depressed.y = d0
     let de = (-2.0 * c2).mul_add(d0, d1);
+    // In exact arithmetic `d >= 0` implies `d0 <= 0`; near a triple root rounding can
+    // leave a tiny positive `d0`, whose square root below would be NaN.
+    let d0 = if d >= 0.0 { d0.min(0.0) } else { d0 };
     // TODO: handle the cases where these intermediate results overflow.
     if d < 0.0 {
         let sq = (-0.25 * d).sqrt();
